@@ -38,6 +38,35 @@ type anchors struct {
 	fSynDataPMT, fSynDataPAT, fSynHdrVersion, fSynHdrTIDExt                    *types.Var
 
 	missing []string
+
+	fwd map[*ssa.Function]ssau.Forwarder // functions that only pass a packet on to writePacket
+}
+
+// packetWriteOf: in serialises a packet to m's output — writePacket(m.bitsWriter, pkt, …) itself, or a call on m of a method whose
+// whole body is that call on its own receiver (m.writeTSPacket(pkt)). It returns the call and the packet argument.
+func (a *anchors) packetWriteOf(in ssa.Instruction, m ssa.Value) (*ssa.Call, ssa.Value, bool) {
+	if c, ok := callTo(in, a.writePacket); ok {
+		if len(c.Call.Args) < 2 || !isLoadOf(c.Call.Args[0], m, a.fBitsWriter) {
+			return nil, nil, false
+		}
+		return c, c.Call.Args[1], true
+	}
+	cc, ok := in.(*ssa.Call)
+	if !ok {
+		return nil, nil, false
+	}
+	if a.fwd == nil {
+		a.fwd = ssau.Forwarders(a.writePacket)
+	}
+	g := cc.Call.StaticCallee()
+	fw, isFw := a.fwd[g]
+	if !isFw || len(fw.Map) < 2 || fw.Map[1] < 0 || fw.Map[1] >= len(cc.Call.Args) || len(g.Params) == 0 || cc.Call.Args[0] != m {
+		return nil, nil, false
+	}
+	if fw.Inner.Call.StaticCallee() != a.writePacket || !isLoadOf(fw.Inner.Call.Args[0], g.Params[0], a.fBitsWriter) {
+		return nil, nil, false
+	}
+	return cc, cc.Call.Args[fw.Map[1]], true
 }
 
 func getAnchors(p *load.Program) *anchors {
@@ -207,14 +236,11 @@ func ESPairing(p *load.Program, r *report.Report) {
 		}
 		pkt := roots[0]
 		isRelease := func(in ssa.Instruction) bool {
-			c, ok := callTo(in, a.writePacket)
-			if !ok || len(c.Call.Args) < 2 {
+			_, parg, ok := a.packetWriteOf(in, m)
+			if !ok {
 				return false
 			}
-			if !isLoadOf(c.Call.Args[0], m, a.fBitsWriter) {
-				return false
-			}
-			for _, l := range ssau.Leaves(c.Call.Args[1]) {
+			for _, l := range ssau.Leaves(parg) {
 				if l != pkt {
 					return false
 				}
